@@ -58,9 +58,19 @@ Definition demo_table : list ast :=
 Definition demo_evs : list event :=
   [Ext 0 10; Ext 1 11; Completed 0 5; Ext 1 12; Completed 7 0; Completed 2 1].
 Theorem C04_nonvacuous :
-  let '(st, out, tr, fs) := run_events (table_handler demo_table) 7 (init 0) demo_evs in
+  let '(st, out, tr, fs) := run_events (table_handler demo_table) 7 (init (0, 0)) demo_evs in
   handled tr = [Ext 0 10; Ext 1 11; Ext 1 12; Completed 7 0] /\
   fs = [false; false; true; false; false; true] /\
   queue st = [] /\ length out = 5.
 Proof. vm_compute. repeat split. Qed.
 Print Assumptions C04_nonvacuous.
+
+(* non-vacuity for handler replacement: the first handler blocks, then installs handler 1 (self._handle_event = ...);
+   the event queued meanwhile is replayed with the NEW handler (table entry 1, command tag 9), not the one that was
+   installed when it arrived *)
+Definition switch_table : list ast := [AYield 1 true (ASwitch 1 ARet); AYield 9 false ARet].
+Theorem C04_replay_uses_installed_handler :
+  let '(st, out, tr, fs) := run_events (table_handler switch_table) 7 (init (0, 0)) [Ext 0 10; Ext 0 11; Completed 0 2] in
+  map ctag out = [1; 9] /\ handled tr = [Ext 0 10; Ext 0 11] /\ queue st = [].
+Proof. vm_compute. repeat split. Qed.
+Print Assumptions C04_replay_uses_installed_handler.
